@@ -326,26 +326,33 @@ func main() {
 	r := rng.Fork("keys")
 	var valid []string
 	var validPayload [][]byte
-	reps := 1
+	// the first non-zero byte takes the boundary values of a byte's bit length (0x01, 0x7f, 0x80, 0xff) and
+	// a random one: padding computed from the bit length instead of the byte length shows there
+	firsts := []int{-1, 0x80, 0x7f, 0xff, 0x01}
 	if wide {
-		reps = 6
+		firsts = append(firsts, -1, -1, 0x81, 0x40)
 	}
+	reps := len(firsts)
 	for rp := 0; rp < reps; rp++ {
 		for lz := 0; lz <= 31; lz++ {
 			key := r.Bytes(32)
 			for j := 0; j < lz; j++ {
 				key[j] = 0
 			}
+			if firsts[rp] >= 0 {
+				key[lz] = byte(firsts[rp])
+			}
 			if key[lz] == 0 {
 				key[lz] = 1 + byte(r.Intn(255))
 			}
 			if lz == 0 && key[0] == 0xff {
-				key[0] = 0x7f // stay below the group order
+				key[0] = 0xfe // stay below the group order
 			}
 			for ni, net := range nets {
 				for _, compress := range []bool{true, false} {
 					// model cases: every lz on one net/flag combination, rotating; all nets for a few lz
-					corr := rp == 0 && (ni == (lz+boolInt(compress))%len(nets) || lz == 31 || lz == 0 && compress)
+					corr := rp == 0 && (ni == (lz+boolInt(compress))%len(nets) || lz == 31 || lz == 0 && compress) ||
+						rp > 0 && rp < 5 && ni == (lz+rp)%len(nets) && compress == (lz%2 == 0) && lz%4 == rp%4
 					s := encodeKey(key, net, compress, corr && !cfg.Search)
 					if s != "" && rp == 0 && (lz == 0 || lz == 1 || lz == 31) && ni < 2 {
 						valid = append(valid, s)
@@ -410,6 +417,49 @@ func main() {
 			c := append(append([]byte(nil), body...), byte(m))
 			corr := !cfg.Search && rp == 0 && (m < 4 || m == 0x81 || m == 0xff || m%32 == 7)
 			decodeStr(base58.Encode(withChecksum(c)), "marker", corr)
+		}
+	}
+
+	// --- family 3b: the byte at offset 33 of a 37-byte payload is the first checksum byte, not a marker:
+	// uncompressed keys whose checksum starts with 0x01 (found by scanning), and for contrast 0x00
+	r = rng.Fork("cks01")
+	for _, first := range []byte{0x01, 0x01, 0x01, 0x00} {
+		for tries := 0; tries < 200000; tries++ {
+			key := r.Bytes(32)
+			key[0] &= 0x7f
+			net := nets[tries%len(nets)]
+			full := append([]byte{net.PrivateKeyID}, key...)
+			if sha256d(full)[0] != first {
+				continue
+			}
+			s := encodeKey(key, net, false, !cfg.Search)
+			decodeStr(s, "cks_first_byte", !cfg.Search)
+			encodeKey(key, net, true, false)
+			break
+		}
+	}
+
+	// --- family 3c: the checksum computed over the wrong prefix (as if the other layout applied):
+	// 33 bytes || m || cks(first 33)  for every m, and 37/38-byte payloads with cks over 32, 33, 34 bytes
+	r = rng.Fork("prefix")
+	for rp := 0; rp < cfg.Scale(1, 3); rp++ {
+		body := append([]byte{vh.Pick(r, []byte{128, 239, 100})}, r.Bytes(32)...)
+		ck33 := sha256d(body)[:4]
+		for m := 0; m < 256; m++ {
+			c := append(append(append([]byte(nil), body...), byte(m)), ck33...)
+			corr := !cfg.Search && rp == 0 && (m < 3 || m == 0xff || m%64 == 9)
+			decodeStr(base58.Encode(c), "cks_over_33_with_marker", corr)
+		}
+		for _, total := range []int{37, 38} {
+			for _, over := range []int{31, 32, 33, 34} {
+				c := r.Bytes(total)
+				c[0] = 128
+				if total == 38 && rp%2 == 0 {
+					c[33] = 1
+				}
+				copy(c[total-4:], sha256d(c[:over])[:4])
+				decodeStr(base58.Encode(c), "cks_over_prefix", !cfg.Search && rp == 0)
+			}
 		}
 	}
 
